@@ -149,13 +149,15 @@ def planeParamsFromPoints(pt1, pt2, pt3):
     pos = scal(unit_normal, pt1)
 
     epsilon = 1e-14
+    # the rounding error on pos grows with the magnitude of the coordinates
+    pos_epsilon = epsilon * max(1.0, mag(pt1))
     params = [unit_normal[0], unit_normal[1], unit_normal[2], pos]
     flipped_params = [-unit_normal[0], -unit_normal[1], -unit_normal[2], -pos]
 
-    if pos < -epsilon:
+    if pos < -pos_epsilon:
         # make sure the origin lies on the negative side of the plane
         return flipped_params
-    if pos > epsilon:
+    if pos > pos_epsilon:
         return params
 
     # Here we are in the D=0 case. The origin lies in the plane; ensure that
